@@ -104,7 +104,7 @@ func runSLIMIT(e *Env) (*Summary, error) {
 					}
 					if have != want {
 						col.Find(Finding{Kind: "property", Group: "SLIMIT", Check: "limit-is-slice-huge-" + sq.kind, Case: fmt.Sprintf("%s%s  [store size %d, batch size 3, batch=%v]", sq.q, lim.txt, size, batch),
-							Line: "SLIMIT " + hxs(sq.q+lim.txt), Engine: have, Model: want, Seed: e.Seed, Index: 0, Properties: []string{"C08"}})
+							Line: "SLIMIT " + hxs(sq.q+lim.txt), Engine: have, Model: want, Seed: e.Seed, Index: 0, Properties: slimitProps(have)})
 					}
 				}
 			}
@@ -168,7 +168,7 @@ func runSLIMIT(e *Env) (*Summary, error) {
 						if have != want {
 							col.Find(Finding{Kind: "property", Group: "SLIMIT", Check: "limit-is-slice-" + sq.kind,
 								Case: fmt.Sprintf("%s%s  [store size %d, batch size %d, batch=%v]", sq.q, lim, j.size, bs, batch),
-								Line: "SLIMIT " + hxs(sq.q+lim), Engine: have, Model: want, Seed: e.Seed, Index: uint64(ji), Properties: []string{"C08"}})
+								Line: "SLIMIT " + hxs(sq.q+lim), Engine: have, Model: want, Seed: e.Seed, Index: uint64(ji), Properties: slimitProps(have)})
 						}
 					}
 				}
@@ -226,3 +226,11 @@ func runSLIMIT(e *Env) (*Summary, error) {
 }
 
 func init() { groups["SLIMIT"] = runSLIMIT }
+
+// slimitProps: a wrong slice violates C08; a panic (or a statement that does not terminate) also C06
+func slimitProps(have string) []string {
+	if have == "panic" {
+		return []string{"C08", "C06"}
+	}
+	return []string{"C08"}
+}
